@@ -47,8 +47,7 @@ class WitnessTU:
             ln = int(m.group(1))
             if ln in self.cases:
                 errs.setdefault(ln, m.group(2))
-            else:
-                other.append("line %d: %s | %s" % (ln, m.group(2), self.lines[ln - 1][:120] if ln <= len(self.lines) else ""))
+            # an error on a prelude line (a helper template of the witness TU) is attributed below, through its instantiation notes
         # errors reported inside repo headers while instantiating a witness: attribute them through the instantiation
         # context (clang: following "note: in instantiation ... <gen>:N"; gcc: preceding "<gen>:N:M:   required from here")
         lines = err.splitlines()
@@ -60,7 +59,7 @@ class WitnessTU:
             if m and int(m.group(1)) in self.cases:
                 pending_ctx = int(m.group(1))
             m = re.match(r"(\S+?):(\d+):(?:\d+:)? (?:fatal )?error: (.*)", ln_txt)
-            if m and m.group(1) != "<gen>":
+            if m and (m.group(1) != "<gen>" or int(m.group(2)) not in self.cases):
                 hit = pending_ctx
                 j2 = idx + 1
                 while j2 < len(lines) and not re.match(r"\S+?:\d+:(?:\d+:)? (?:fatal )?error: ", lines[j2]):
@@ -73,6 +72,9 @@ class WitnessTU:
                     j2 += 1
                 if hit is not None:
                     errs.setdefault(hit, "%s:%s: %s" % (m.group(1), m.group(2), m.group(3)))
+                elif m.group(1) == "<gen>":
+                    ln0 = int(m.group(2))
+                    other.append("line %d: %s | %s" % (ln0, m.group(3), self.lines[ln0 - 1][:120] if ln0 <= len(self.lines) else ""))
                 else:
                     other.append("%s:%s: %s" % (m.group(1), m.group(2), m.group(3)))
                 pending_ctx = None
